@@ -23,14 +23,17 @@ type vProcH struct {
 	pid     *PID
 	trace   []string
 	script  []string
+	proc    Processer
+	reuseID bool // while handling its final Stopped the receiver lets somebody else take its id
 	inc     int
 	entered []int  // middlewares currently entered, in entry order
 	mwSeen  []string // message token each entered middleware saw
 	open    bool
 }
 
+// registered = the registry maps the id to THIS process (another process that took the id does not count)
 func (h *vProcH) reg() string {
-	if h.e.Registry.get(h.pid) != nil {
+	if p := h.e.Registry.get(h.pid); p != nil && p == h.proc {
 		return "1"
 	}
 	return "0"
@@ -135,6 +138,12 @@ func (r *vScriptRecv) Receive(c *Context) {
 	}
 	h.log(fmt.Sprintf("R%d:%s:%s:%s:%s%s", r.inc, tok, snd, mw, h.reg(), coh))
 	if tok == "X" {
+		if h.reuseID && h.e.Registry.get(h.pid) == nil {
+			// the id is free: somebody spawns it again right away (C10: allowed after the actor has stopped)
+			h.e.Registry.mu.Lock()
+			h.e.Registry.lookup[h.pid.ID] = &vEventRec{pid: h.pid}
+			h.e.Registry.mu.Unlock()
+		}
 		return
 	}
 	o := "ok"
@@ -170,7 +179,7 @@ func (h *vProcH) middleware(i int) MiddlewareFunc {
 var vProcSeq int64
 
 // runProcHistory: max restarts, chain length, script (o/p/i), history items (u<k>s<j|->, pg<id>, pn<id>, | = batch boundary)
-func runProcHistory(e *Engine, rec *vEventRec, max, mw int, script []string, items []string) string {
+func runProcHistory(e *Engine, rec *vEventRec, max, mw int, script []string, items []string, reuse bool) string {
 	h := &vProcH{e: e, script: append([]string{}, script...)}
 	rec.h = h
 	opts := DefaultOpts(func() Receiver {
@@ -189,6 +198,8 @@ func runProcHistory(e *Engine, rec *vEventRec, max, mw int, script []string, ite
 	p := newProcess(e, opts)
 	p.inbox = &vFakeInbox{h: h}
 	h.pid = p.pid
+	h.proc = p
+	h.reuseID = reuse
 	guarded := func(f func()) (escaped bool) {
 		defer func() {
 			if v := recover(); v != nil {
@@ -332,17 +343,27 @@ func TestVerifProc(t *testing.T) {
 	}
 	defer w.Close()
 	e, rec := vProcEngine(t)
+	nemit := 0
+	emitR := func(id string, max, mw int, script, items []string, reuse bool) {
+		in := vProcIn(max, mw, script, items)
+		if reuse {
+			in += " reuse=1"
+		}
+		w.Case(id, in, runProcHistory(e, rec, max, mw, script, items, reuse))
+	}
 	emit := func(id string, max, mw int, script, items []string) {
-		w.Case(id, vProcIn(max, mw, script, items), runProcHistory(e, rec, max, mw, script, items))
+		// every third generated history: the actor's id is taken over by someone else while it handles its final Stopped
+		nemit++
+		emitR(id, max, mw, script, items, nemit%3 == 0)
 	}
 	if in, ok := vgen.ReplayInput(); ok {
 		max, mw, script, items := vParseProcIn(in)
-		emit("replay", max, mw, script, items)
+		w.Case("replay", in, runProcHistory(e, rec, max, mw, script, items, vgen.KVInt(in, "reuse", 0) == 1))
 		return
 	}
 	for i, in := range vgen.CorpusInputs() {
 		max, mw, script, items := vParseProcIn(in)
-		emit(fmt.Sprintf("corpus%d", i), max, mw, script, items)
+		emitR(fmt.Sprintf("corpus%d", i), max, mw, script, items, vgen.KVInt(in, "reuse", 0) == 1)
 	}
 	// model-directed enumeration: one batch of <= 4 items with a pill (graceful / not) at every
 	// position or none, one panic at every delivery position (incl. Initialized/Started of every
